@@ -35,7 +35,11 @@ type ReplaySpec struct {
 	Call    string
 	Params  []RP
 	Results []RP
+	// ExpectPanic: the counterexample falsifies a safety obligation (index, slice bounds, nil, ...): the real call must panic
+	ExpectPanic bool
 }
+
+func (r *ReplaySpec) nResults() int { return len(r.Results) }
 
 func replayKind(t types.Type) (string, bool) {
 	switch {
@@ -88,6 +92,14 @@ func (x *Exec) replaySpecFor(fn *ssa.Function, params map[string]Value, st *Stat
 		rs.Params = append(rs.Params, rp)
 	}
 	res := fn.Signature.Results()
+	if results == nil {
+		// safety obligation inside the body: inputs only; declare result names for the call statement
+		rs.ExpectPanic = true
+		for i := 0; i < res.Len(); i++ {
+			rs.Results = append(rs.Results, RP{Name: fmt.Sprintf("r%d", i), Kind: "skip"})
+		}
+		return rs
+	}
 	for i := 0; i < res.Len(); i++ {
 		if i >= len(results) {
 			return nil
@@ -297,6 +309,10 @@ func replayModel(repo, root string, o *Obligation) (bool, map[string]interface{}
 	}
 	// 3. predicted outputs under that input
 	var rlen []*Term
+	if rs.ExpectPanic {
+		// no outputs to predict: the call must panic
+		rs = &ReplaySpec{PkgDir: rs.PkgDir, PkgName: rs.PkgName, Call: rs.Call, Params: rs.Params, ExpectPanic: true}
+	}
 	for _, r := range rs.Results {
 		if r.Kind == "string" || r.Kind == "bytes" {
 			rlen = append(rlen, Len(r.Term))
@@ -402,7 +418,7 @@ func TestVerifReplay(t *testing.T) {
 }
 `, rs.PkgName, strings.Join(outs, ", "), rs.Call, strings.Join(args, ", "), strings.Join(fmts, ", "))
 	if len(outs) == 0 {
-		src = strings.Replace(src, " := ", "", 1)
+		src = strings.Replace(src, "\t := ", "\t", 1)
 	}
 	tf := filepath.Join(scratch, "replay_"+sanitize(o.Name)+"_test.go")
 	os.WriteFile(tf, []byte(src), 0o644)
@@ -438,6 +454,14 @@ func TestVerifReplay(t *testing.T) {
 	rec["actual_outputs"] = actual
 	if actual == "" {
 		rec["note"] = "replay did not run: " + lastLines(buf.String(), 6)
+		return false, rec
+	}
+	if rs.ExpectPanic {
+		if strings.HasPrefix(actual, "REPLAY-PANIC") {
+			rec["note"] = "confirmed: the real code panics on the counterexample's input (" + actual + ")"
+			return true, rec
+		}
+		rec["note"] = "the real code did not panic on the model's input: not confirmed"
 		return false, rec
 	}
 	match := actual == strings.Join(pred, " ")
